@@ -5,7 +5,7 @@ import ast
 from typing import Dict, List, Optional, Set
 from ..model import Program, AnalysisError, own_nodes, norm, names_in, FuncInfo
 from ..cfg import cfg_of
-from ..guards import Env, walk, collect_atoms, valuations, describe_env
+from ..guards import Env, walk, collect_atoms, valuations, describe_env, iff_table
 from ..report import Report
 from ..rules.dispatch import check_forwarding, check_dispatch, argparse_choices
 from ..rules.freshname import check_fresh_names
@@ -20,6 +20,8 @@ def run(prog: Program, rep: Report, tier: str) -> None:
     rep.rule('C05-D2', 'fresh-name protocol: avoid sets of unique_label_name are seeded from complete edge-label registries (never only nonterminals()/terminals()), and the new label is added before the set is consulted again')
     rep.rule('C05-D3', 'carry-over: factorize_fgg binds factors/domains of the result to the argument\'s (identity or unfiltered copy) on every path; factorize_hrg builds the result from <arg>.start; original edges are re-added as the same Edge object')
     rep.rule('C05-D4', 'edge-placement guard: an original edge is added to a bag\'s rule iff the bag covers it and the parent bag does not (truth table over the three membership atoms)')
+    rep.rule('C05-D6', 'every neighbour bag other than the parent is visited and linked: in visit(), for n in t[bag] the recursive call and the add_edge of the child nonterminal are executed iff n != parent, whatever any other condition in the loop says')
+    rep.rule('C05-D5', 'decomposition set-up: the primal graph has every rhs node as a vertex and a clique for the attachment nodes of every edge and for the externals; the root bag is chosen iff it contains all externals; the nodes of a new rule are exactly the nodes of its bag (so no new rule is wider than the bag, which is a subset of the original rule\'s nodes); child externals are bag & parent')
     rep.not_decided += ['inlining reproduces each rule up to isomorphism', 'equality of sum-products', 'running-intersection property of the runtime tree decomposition', 'no new rule is wider than the original']
     m = prog.module(FZ)
     res = Resolver(prog)
@@ -56,6 +58,10 @@ def run(prog: Program, rep: Report, tier: str) -> None:
     carry_over(rep, prog)
     # D4
     edge_placement(rep, prog)
+    # D5
+    decomposition_setup(rep, prog)
+    # D6
+    child_recursion(rep, prog)
 
 
 def readme_methods(prog: Program) -> Set[str]:
@@ -171,47 +177,25 @@ def edge_placement(rep: Report, prog: Program) -> None:
         for n in cfg.loop_body.get(hdr, set()):
             if cfg.nodes[n].kind == 'test':
                 atoms.update(collect_atoms(cfg.nodes[n].expr))
-        role: Dict[str, str] = {}
-        for t, a in atoms.items():
-            r = classify_atom(a, e, bag, parent)
-            if r is None:
-                raise AnalysisError(f"C05-D4: {v.loc(lp)} guard atom `{t}` is not a cover test of the edge by bag/parent; idiom not recognised")
-            role[t] = r
-        need = {'bag_covers', 'parent_is_none', 'parent_covers'}
-        have = set(role.values())
         body_entry = [b for b, l in cfg.succ[hdr] if l == 'iter'][0]
-        bad = []
-        n_vals = 0
-        for env in valuations(list(atoms)):
-            val = {role[t]: env.atoms[t] for t in atoms}
-            # consistency between atoms of the same role
-            if any(env.atoms[t1] != env.atoms[t2] for t1 in atoms for t2 in atoms if role[t1] == role[t2]):
-                continue
-            n_vals += 1
-            reach = walk(cfg, body_entry, env, loop_header_stop=hdr, unknown='both')
-            executed = bool(reach & add_nodes)
-            A = val.get('bag_covers')
-            P = val.get('parent_is_none')
-            B = val.get('parent_covers')
+
+        def req(v):
+            A, P, B = v.get('bag_covers'), v.get('parent_is_none'), v.get('parent_covers')
             if A is None:
-                want = None
-            else:
-                pn = P if P is not None else None
-                if P is True:
-                    want = A
-                elif P is False or P is None:
-                    want = (A and not B) if B is not None else None
-                if P is None and B is None:
-                    want = None
-            if want is None:
-                continue
-            if executed != want:
-                bad.append(f"[{describe_env(env)}] add_edge executed={executed}, required={want}")
-        missing = need - have
+                return None
+            if P is True:
+                return A
+            if B is None:
+                return None if A else False
+            return A and not B
+        bad, unknown = iff_table(cfg, body_entry, hdr, atoms, lambda t, a: classify_atom(a, e, bag, parent), req, lambda reach: bool(reach & add_nodes))
+        have = {classify_atom(a, e, bag, parent) for a in atoms.values()} - {None}
+        missing = {'bag_covers', 'parent_is_none', 'parent_covers'} - have
         ok = not bad and not missing
         rep.ob(rule, v.fq(), f"for {e} in {norm(lp.iter)}: add_edge({e}) iff bag covers {e} and (no parent or parent does not cover {e})",
                v.loc(lp), ok,
-               (f"guard never tests {sorted(missing)}; " if missing else '') + ('; '.join(bad[:4]) if bad else f"truth table agrees on {n_vals} valuations"))
+               (f"guard never tests {sorted(missing)}; " if missing else '') + ('; '.join(bad[:4]) if bad else 'truth table agrees')
+               + (f" (conditions the rule cannot interpret, quantified universally: {unknown})" if unknown else ''))
     rep.floor('C05-D4', found, 1)
 
 
@@ -230,3 +214,90 @@ def classify_atom(a: ast.AST, e: str, bag: str, parent: str) -> Optional[str]:
         if norm(a.args[0]) == bag: return 'bag_covers'
         if norm(a.args[0]) == parent: return 'parent_covers'
     return None
+
+
+def decomposition_setup(rep: Report, prog: Program) -> None:
+    rule = 'C05-D5 decomposition-setup'
+    f = prog.func(FZ, 'factorize_rule')
+    cfg = cfg_of(f)
+    # vertices: every node of the rhs
+    rhs_alias = {'rule.rhs'}
+    for n in own_nodes(f.node):
+        if isinstance(n, ast.Assign) and len(n.targets) == 1 and isinstance(n.targets[0], ast.Name) and norm(n.value) == f"{f.positional_params()[0]}.rhs":
+            rhs_alias.add(n.targets[0].id)
+    rhs_alias.add(f"{f.positional_params()[0]}.rhs")
+    vloops = [l for l in own_nodes(f.node) if isinstance(l, ast.For) and isinstance(l.iter, ast.Call) and callee_last(l.iter) == 'nodes' and norm(l.iter.func.value) in rhs_alias]
+    ok = any(any(isinstance(x, ast.Assign) and isinstance(x.targets[0], ast.Subscript) and norm(x.targets[0].slice) == norm(l.target) for x in l.body) for l in vloops)
+    rep.ob(rule, f.fq(), 'every rhs node is a vertex of the primal graph', f.loc(), ok, '' if ok else 'isolated nodes would be missing from the decomposition')
+    # cliques: attachment nodes of every edge, and the externals
+    cl = [l for l in own_nodes(f.node) if isinstance(l, ast.For) and isinstance(l.iter, ast.BinOp) and isinstance(l.iter.op, ast.Add)]
+    okc = False
+    for l in cl:
+        txt = norm(l.iter)
+        if '.nodes for' in txt and '.edges()' in txt and any(f"[{a}.ext]" in txt for a in rhs_alias) and ' if ' not in txt:
+            okc = True
+    rep.ob(rule, f.fq(), 'cliques for [e.nodes for e in rhs.edges()] + [rhs.ext]', f.loc(), okc,
+           'the externals form a clique, so some bag contains them all' if okc else 'the externals (or some edges) are not made a clique: no bag need contain all externals')
+    # root selection: chosen iff ext subset of bag; otherwise assert False
+    rl = [l for l in own_nodes(f.node) if isinstance(l, ast.For) and l.orelse]
+    okr = False
+    for l in rl:
+        hdr = cfg.node_of(l)
+        b = norm(l.target)
+        be = [x for x, lab in cfg.succ[hdr] if lab == 'iter'][0]
+        atoms = {}
+        for n in cfg.loop_body[hdr]:
+            if cfg.nodes[n].kind == 'test': atoms.update(collect_atoms(cfg.nodes[n].expr))
+        sub = [t for t, a in atoms.items() if isinstance(a, ast.Call) and callee_last(a) in ('issubset', 'issuperset') and b in t]
+        if len(sub) != 1 or len(atoms) != 1:
+            continue
+        brk = {n for n in cfg.loop_body[hdr] if cfg.nodes[n].kind == 'break'}
+        r_t = walk(cfg, be, Env(atoms={sub[0]: True}), loop_header_stop=hdr, unknown='both')
+        r_f = walk(cfg, be, Env(atoms={sub[0]: False}), loop_header_stop=hdr, unknown='both')
+        else_raises = any(isinstance(x, ast.Assert) or isinstance(x, ast.Raise) for s2 in l.orelse for x in ast.walk(s2))
+        okr = bool(brk & r_t) and not (brk & r_f) and else_raises
+    rep.ob(rule, f.fq(), 'root bag = a bag containing all externals (loop breaks iff ext is covered; otherwise fails loudly)', f.loc(), okr, '')
+    v = prog.func(FZ, 'factorize_rule.visit')
+    bag, parent = v.positional_params()[:2]
+    adds = [x for x in own_nodes(v.node) if isinstance(x, ast.Call) and callee_last(x) in ('add_node', 'new_node')]
+    from ..util import parents as _parents
+    pm = _parents(v)
+    okn = bool(adds)
+    for a in adds:
+        p = pm.get(id(a))
+        while p is not None and not isinstance(p, ast.For): p = pm.get(id(p))
+        if not (isinstance(p, ast.For) and norm(p.iter) == bag and a.args and norm(a.args[0]) == norm(p.target)):
+            okn = False
+    rep.ob(rule, v.fq(), f"nodes of a new rule are exactly the nodes of `{bag}`", v.loc(), okn, '' if okn else 'a node from outside the bag is added to the new right-hand side')
+    ext_defs = [n for n in own_nodes(v.node) if isinstance(n, ast.Assign) and norm(n.targets[0]) == 'ext'] or \
+               [n for n in own_nodes(v.node) if isinstance(n, ast.Assign) and isinstance(n.targets[0], ast.Name) and ('&' in norm(n.value) or norm(n.value).endswith('.rhs.ext'))]
+    oke = bool(ext_defs) and all(norm(n.value) in (f"list({bag} & {parent})", f"list({parent} & {bag})", f"tuple({bag} & {parent})", f"sorted({bag} & {parent})") or norm(n.value).endswith('.rhs.ext') for n in ext_defs)
+    rep.ob(rule, v.fq(), f"externals of a child rule = {bag} & {parent}; of the root rule = the rule's externals", v.loc(), oke, f"{[norm(n) for n in ext_defs]}")
+
+
+def child_recursion(rep: Report, prog: Program) -> None:
+    rule = 'C05-D6 child-recursion'
+    v = prog.func(FZ, 'factorize_rule.visit')
+    cfg = cfg_of(v)
+    bag, parent = v.positional_params()[:2]
+    loops = [l for l in own_nodes(v.node) if isinstance(l, ast.For) and isinstance(l.iter, ast.Subscript) and norm(l.iter.slice) == bag]
+    rep.floor('C05-D6', len(loops), 1)
+    for l in loops:
+        n = norm(l.target)
+        hdr = cfg.node_of(l)
+        be = [b for b, lab in cfg.succ[hdr] if lab == 'iter'][0]
+        rec = {m for m in cfg.loop_body[hdr] if cfg.nodes[m].kind == 'stmt' and any(isinstance(x, ast.Call) and isinstance(x.func, ast.Name) and x.func.id == v.name and x.args and norm(x.args[0]) == n for x in ast.walk(cfg.nodes[m].stmt))}
+        link = {m for m in cfg.loop_body[hdr] if cfg.nodes[m].kind == 'stmt' and any(isinstance(x, ast.Call) and callee_last(x) == 'add_edge' for x in ast.walk(cfg.nodes[m].stmt))}
+        atoms: Dict[str, ast.AST] = {}
+        for m in cfg.loop_body[hdr]:
+            if cfg.nodes[m].kind == 'test': atoms.update(collect_atoms(cfg.nodes[m].expr))
+
+        def role(t, a):
+            if isinstance(a, ast.Compare) and len(a.ops) == 1 and isinstance(a.ops[0], (ast.Eq, ast.NotEq, ast.Is, ast.IsNot)) and {norm(a.left), norm(a.comparators[0])} == {n, parent}:
+                return 'is_parent'
+            return None
+        for what, nodes in (('recursive visit', rec), ('edge to the child rule', link)):
+            bad, unknown = iff_table(cfg, be, hdr, atoms, role, lambda val: (not val['is_parent']) if 'is_parent' in val else None, lambda reach: bool(reach & nodes))
+            rep.ob(rule, v.fq(), f"for {n} in {norm(l.iter)}: {what} iff {n} != {parent}", v.loc(l), not bad and bool(nodes),
+                   '; '.join(bad[:3]) if bad else 'every neighbour bag except the parent is processed'
+                   + (f" (universally quantified conditions: {unknown})" if unknown else ''))
